@@ -24,6 +24,7 @@ RULE = (
     "gate: per version (pinned or learned from a x.y.z reply) every internal type -3..40 and stream type -2..8 plus huge ints on a fresh "
     "gateway: UnsupportedMessageError iff outside the spec table spelled in the harness. Non-trivial = 3/4-component version, or history "
     "with >=2 different reports or a rejected report after an accepted one, or a gate probe within 1 of a table edge."
+    ' Round 5: a `probe` op asks the same gateway about the same types repeatedly while its version changes (enumerated for all version pairs).'
 )
 ASSUMPTIONS = [
     "spec tables: internal 0-14 (1.4), 0-17 (1.5), 0-28 (2.0, 2.1), 0-33 (2.2); stream 0-5",
